@@ -119,9 +119,7 @@ class MAP(T):
     def shape(self):
         from .values import MapShape
 
-        if self.ordered:
-            raise Unsupported("an insertion-ordered dict as a field / element (declare it ordered=False)")
-        return MapShape(self.key.shape(), self.val.shape())
+        return MapShape(self.key.shape(), self.val.shape(), ordered=self.ordered)
 
 
 class CONST(T):
